@@ -57,8 +57,13 @@ def _name(root: Path, p: Path) -> str:
 
 def disk_modules(root: Path) -> set:
     out = set()
-    for d, dirs, files in os.walk(root):
+    for d, dirs, files in os.walk(root, followlinks=True):
         dp = Path(d)
+        # symlinked directories are walked like the scanner does (a second name for the same content); the depth
+        # cap only guards this walk against a link that leads back into its own ancestors
+        if d.count(os.sep) - str(root).count(os.sep) > 40:
+            dirs[:] = []
+            continue
         out.add(_name(root, dp))
         for f in files:
             if f.endswith(".py"):
